@@ -229,6 +229,69 @@ fn real_funcs(ctx: &mut Ctx, thorough: bool) {
     } else {
         sizes.push(100_000);
     }
+    // cells allowed by the property for n keys: c n plus two segments per shard (largest admissible shard)
+    let cells = |n: usize| {
+        let mut e = FuseLge3Shards::default();
+        e.set_up_shards(n, 0.001);
+        let s = e.num_shards();
+        let ms = if s == 1 { n } else { ((1.01 * n as f64) / s as f64).floor() as usize };
+        e.set_up_graphs(n, ms);
+        let seg = e.num_vertices() / (e.num_sort_keys() + 2);
+        let c = if n >= 100_000 { 1.135 } else { 1.23 };
+        (c * n as f64).ceil() as usize + 2 * seg * s
+    };
+    // every value width of every backend word (the cell width must be the value width, whatever it is;
+    // boxed slices cost one word per cell)
+    macro_rules! widths {
+        ($W:ty, $ns:expr, $bs:expr) => {
+            for &n in $ns {
+                for b in $bs {
+                    let b: usize = b;
+                    if !ctx.case(|| format!("VFunc real build space backend=BitFieldVec<{}>/Box<[{}]> n={n} value bits={b}", stringify!($W), stringify!($W))) {
+                        continue;
+                    }
+                    ctx.nontrivial();
+                    let m: $W = <$W>::MAX >> (<$W>::BITS as usize - b);
+                    let r = guard(|| {
+                        let f = VBuilder::<$W, BitFieldVec<$W>>::default()
+                            .expected_num_keys(n)
+                            .try_build_func(FromIntoIterator::from(0..n), FromIntoIterator::from((0..n).map(move |i| if i == 0 { m } else { (i as $W) & m })), no_logging![])
+                            .unwrap();
+                        let g = if b == <$W>::BITS as usize || b == 1 {
+                            let g = VBuilder::<$W, Box<[$W]>>::default()
+                                .expected_num_keys(n)
+                                .try_build_func(FromIntoIterator::from(0..n), FromIntoIterator::from((0..n).map(move |i| if i == 0 { m } else { (i as $W) & m })), no_logging![])
+                                .unwrap();
+                            Some(bits(&g))
+                        } else {
+                            None
+                        };
+                        (bits(&f), g)
+                    });
+                    match r {
+                        Outcome::Panic(msg) => ctx.violation("C11|VFunc|panic", format!("n={n} b={b}: {msg}")),
+                        Outcome::Ret((fb, gb)) => {
+                            let bound = cells(n) * b + <$W>::BITS as usize + 64 + 128 + 1024;
+                            if fb > bound {
+                                ctx.violation("C11|VFunc|space-bound-exceeded", format!("BitFieldVec<{}> n={n} b={b}: mem_size = {fb} bits > cells(n) b + const = {bound}", stringify!($W)));
+                            }
+                            if let Some(gb) = gb {
+                                let bound = cells(n) * <$W>::BITS as usize + 64 + 128 + 1024;
+                                if gb > bound {
+                                    ctx.violation("C11|VFunc|space-bound-exceeded", format!("Box<[{}]> n={n}: mem_size = {gb} bits > cells(n) BITS + const = {bound}", stringify!($W)));
+                                }
+                            }
+                        }
+                    }
+                }
+            }
+        };
+    }
+    widths!(usize, &[1000usize, 100_000], 1..=64usize);
+    widths!(u64, &[1000usize], [1usize, 31, 59, 61, 63, 64]);
+    widths!(u32, &[1000usize, 100_000], [1usize, 7, 16, 17, 29, 31, 32]);
+    widths!(u16, &[1000usize, 100_000], 1..=16usize);
+    widths!(u8, &[1000usize, 100_000], 1..=8usize);
     for n in sizes {
         for b in [1usize, 5, 8, 13] {
             if !ctx.case(|| format!("VFunc/VFilter real build space n={n} value bits={b}")) {
